@@ -30,6 +30,7 @@ var extractors = []extractor{
 	{"RefPat", genRefPat},
 	{"Unify", genUnify},
 	{"AuthFacts", genAuthFacts},
+	{"Debug", genDebug},
 }
 
 func main() {
